@@ -187,6 +187,16 @@ def cases(tier, seed):
                 yield ['realorder', list(perm), [N, v]]
     for N in (1, 2):
         yield ['realorder', ['A', 'B', 'C'], [N, 0]]
+    # a relative search path and a test module that changes the working
+    # directory at import (shared with C03): -j2 must find what the
+    # sequential run finds
+    yield ['cwdimport', None, None]
+    # standard streams that cannot encode what a test prints (ASCII, latin-1):
+    # the test errors in the sequential run, so it errors in a child as well
+    for enc in ('ascii', 'latin-1'):
+        for N in (2, 3):
+            yield ['ioenc', enc, [N, 'out']]
+        yield ['ioenc', enc, [2, 'err']]
     # worlds that are not small: many layers, -j larger than their number
     yield ['bigworld', 12, 6, [2, 5, 20]]
     yield ['bigworld', 3, 60, [2, 7]]
@@ -769,6 +779,47 @@ def run_case(case):
         viol = [{'clause': c, 'sig': s, 'detail': d} for c, s, d in vs]
         return {'evals': evals, 'nontrivial': evals, 'violations': viol, 'outcome': 'realorder', 'nogate': True,
                 'counters': {'real_process_runs': evals}}
+    if case[0] == 'ioenc':
+        enc, (N, which) = case[1], case[2]
+        layers = [{'n': L, 'b': [], 'k': 'c', 'h': list(worlds.HOOKS_SD)} for L in 'AB']
+        tests = [{'n': 'u0', 'l': None, 's': 'pass', 'w': [['o', 'caf\xe9 \u20ac \u4e2d\n', False]]},
+                 {'n': 'a0', 'l': 'A', 's': 'pass', 'w': [['o', 'gr\xf6\xdfe \u4e2d\n', False]]},
+                 {'n': 'a1', 'l': 'A', 's': 'pass'},
+                 {'n': 'b0', 'l': 'B', 's': 'pass', 'w': ([['e', '\u4e2d\u6587\n', False]] if which == 'err' else [])},
+                 {'n': 'b1', 'l': 'B', 's': 'fail'}]
+        spec = {'layers': layers, 'tests': tests}
+        ee = {'PYTHONIOENCODING': enc, 'PYTHONUTF8': '0'}
+        seq = runrt.run_cli(spec, ['-v'], timeout=120, extra_env=ee, barrier=False)
+        par = runrt.run_cli(spec, ['-v', '-j%d' % N], timeout=120, extra_env=ee, barrier=False)
+        viol = []
+        sig = {'N': N, 'v': 1, 'cfg': 'ioenc_' + which}
+        d = 'real processes, PYTHONIOENCODING=%s, tests printing text the streams cannot encode (%s), -j%d: ' % (enc, 'sys.stdout only' if which == 'out' else 'sys.stdout and sys.stderr', N)
+        ts, tp = runrt.TOTAL_RE.search(seq.text), runrt.TOTAL_RE.search(par.text)
+        es = runrt.parse_name_list(seq.text, 'Tests with errors:') or []
+        ep = runrt.parse_name_list(par.text, 'Tests with errors:') or []
+        extra = sorted(set(ep) - set(es))
+        if (which == 'err' and seq.rc == par.rc and ts and tp and sorted(set(es) - set(ep)) == []
+                and len(extra) == 1 and extra[0].startswith('test_b0 ')
+                and int(tp.group(3)) == int(ts.group(3)) + 1 and ts.groups()[:2] == tp.groups()[:2]):
+            # exactly the known finding: the stderr-writing test errors in the child only
+            viol.append({'clause': 'unencodable_stderr_write_fails_only_in_a_child', 'sig': sig,
+                         'detail': d + 'test b0 writes %r to sys.stderr: passes sequentially (stderr: backslashreplace), errors in the layer subprocess (its sys.stderr is its strict sys.stdout): %s vs %s' % ('\u4e2d\u6587', tp.group(0), ts.group(0))})
+        else:
+            if seq.rc != par.rc:
+                viol.append({'clause': 'verdict_differs', 'sig': sig, 'detail': d + 'exit %r, sequential %r' % (par.rc, seq.rc)})
+            if not ts or not tp or ts.groups()[:3] != tp.groups()[:3]:
+                viol.append({'clause': 'totals_differ', 'sig': sig, 'detail': d + '%s vs sequential %s' % (tp and tp.group(0), ts and ts.group(0))})
+            if sorted(es) != sorted(ep):
+                viol.append({'clause': 'verdict_or_lists_differ', 'sig': sig, 'detail': d + 'errors %s vs sequential %s' % (ep, es)})
+        return {'evals': 2, 'nontrivial': 2, 'violations': viol, 'outcome': 'ioenc', 'nogate': True,
+                'counters': {'real_process_runs': 2}}
+    if case[0] == 'cwdimport':
+        from vt.props import c03
+        viol = c03.run_cwd_case('import', 'j2')
+        for v in viol:
+            v['sig'] = {'N': 2, 'v': 0, 'cfg': 'cwdimport'}
+        return {'evals': 1, 'nontrivial': 1, 'violations': viol, 'outcome': 'cwdimport', 'nogate': True,
+                'counters': {'real_process_runs': 1}}
     if case[0] == 'longoutput':
         pos, nlines = case[1], case[2]
         layers = [{'n': n, 'b': [], 'k': 'c', 'h': list(worlds.HOOKS_SD)} for n in 'ABC']
